@@ -167,6 +167,10 @@ def gen(rng, tier):
             cs.append(mk(200, m, b"/", [], b"", ["method-" + kind]))
             cs.append(mk(200, b"GET", b"/p", [(m, b" ", b"v", b"")], b"R", ["name-" + kind]))
     cs.append(mk(8192, TCHARS, b"/", [(TCHARS, b"", FV, b"")], b"", ["all-tchars", "all-vchars"]))
+    # --- the method the HANDLER is given (the connection task, handle_http_conn over loop-back): verbatim, whatever it is
+    for m in (b"GET", b"HEAD", b"head", b"Head", b"HEADS", b"OPTIONS", b"TRACE", b"CONNECT", b"PATCH", b"DELETE", b"PUT", b"M",
+              b"get", b"G-E_T", b"!#$%&'*+-.^_`|~", b"POST"):
+        cs.append("task n %s" % x(m + b" /t HTTP/1.1\r\n\r\n"))
     # --- heads of 0.2 .. 3.4 KiB with nothing behind them in the case: the harness sends a second, long message behind
     # each (request level) that fits the buffer only after compaction
     for k in (150, 300, 700, 1000, 1500, 2000, 2500, 3000, 3300, 3400):
